@@ -86,6 +86,10 @@ def build_world(rng, root, odd):
                 name, src = '%s-%s.typelib' % (ns, ver), None             # not a typelib
             else:
                 continue
+            if odd and src == (ns, ver) and name == '%s-%s.typelib' % (ns, ver) and rng.random() < 0.25:
+                # a numerically equal, differently spelled version ("2.0" / "2.00"): competes with the plain spelling elsewhere
+                a, b = ver.split('.')
+                name = '%s-%s.typelib' % (ns, rng.choice([a + '.0' + b, '0' + a + '.' + b, a + '.' + b + '0' if b == '0' else a + '.00' + b]))
             if '/' in name:
                 continue
             dst = os.path.join(p, name)
@@ -183,7 +187,8 @@ def spec_run(fsview, base, ops, infos):
 
     def wellformed(v):
         p = v.split('.')
-        return len(p) == 2 and all(x.isdigit() and (x == '0' or not x.startswith('0')) for x in p)
+        # decimal digits only (leading zeros allowed: "2.00" is numerically 2.0, a differently spelled equal of "2.0")
+        return len(p) == 2 and all(x.isdigit() and x.isascii() for x in p)
 
     def require(ns, ver, path, depth=0):
         if depth > 20:
